@@ -366,6 +366,12 @@ FastForward
 // hashgraph from a Block and associated Frame.
 func (c *core) fastForward(block *hg.Block, frame *hg.Frame) error {
 	c.logger.Debug("Fast Forward", frame.Round)
+
+	// The Block and Frame come from a remote peer.
+	if err := checkFrameWellFormed(frame); err != nil {
+		return err
+	}
+
 	peerSet := peers.NewPeerSet(frame.Peers)
 
 	// Check Block Signatures
@@ -409,6 +415,39 @@ func (c *core) fastForward(block *hg.Block, frame *hg.Frame) error {
 		}
 	}
 
+	return nil
+}
+
+// checkFrameWellFormed verifies that a Frame received from a remote peer does
+// not contain nil elements that the hashgraph would dereference.
+func checkFrameWellFormed(frame *hg.Frame) error {
+	for _, p := range frame.Peers {
+		if p == nil {
+			return fmt.Errorf("Invalid Frame: nil Peer")
+		}
+	}
+	for _, ps := range frame.PeerSets {
+		for _, p := range ps {
+			if p == nil {
+				return fmt.Errorf("Invalid Frame: nil Peer in PeerSets")
+			}
+		}
+	}
+	for _, r := range frame.Roots {
+		if r == nil {
+			return fmt.Errorf("Invalid Frame: nil Root")
+		}
+		for _, fe := range r.Events {
+			if fe == nil || fe.Core == nil || len(fe.Core.Body.Parents) != 2 {
+				return fmt.Errorf("Invalid Frame: malformed Root Event")
+			}
+		}
+	}
+	for _, fe := range frame.Events {
+		if fe == nil || fe.Core == nil || len(fe.Core.Body.Parents) != 2 {
+			return fmt.Errorf("Invalid Frame: malformed Event")
+		}
+	}
 	return nil
 }
 
